@@ -47,6 +47,16 @@ EncodeDoc(d, wi) ==
   ELSE LET st == JStyleSeq[wi + 1] IN EncodeText(Render(DocFor(d, wi), [st EXCEPT !.order = 0], 0), st.enc, st.bom)
 DocMeta(wi) == IF Arch = "msgpack" THEN [enc |-> "bin", bom |-> FALSE] ELSE [enc |-> JStyleSeq[wi + 1].enc, bom |-> JStyleSeq[wi + 1].bom]
 
+\* Encoding detection without a BOM is only defined (RFC 4627 section 3 heuristic, which stream parsers implement) when the text
+\* starts with ASCII characters: two of them for UTF-16, one for UTF-32.  Other BOM-less UTF-16/32 texts are not generated.
+Detectable(d, wi) ==
+  \/ Arch = "msgpack"
+  \/ LET st == JStyleSeq[wi + 1]
+          t == Render(DocFor(d, wi), [st EXCEPT !.order = 0], 0) IN
+     \/ st.bom \/ st.enc = "utf8"
+     \/ (st.enc \in {"utf32le", "utf32be"} /\ Len(t) >= 1 /\ t[1] < 128)
+     \/ (st.enc \in {"utf16le", "utf16be"} /\ Len(t) >= 2 /\ t[1] < 128 /\ t[2] < 128)
+
 -----------------------------------------------------------------------------
 (* Mode "fields" (C03) *)
 FieldValues == { U(5), S(<<120, 121>>), <<"nil">>, <<"arr", <<U(1), U(2)>>>>,
@@ -122,7 +132,12 @@ Shape4 == [doc |-> <<"arr", <<U(1), S(<<120>>), <<"f64", <<63, 248, 0, 0, 0, 0, 
            root |-> [k |-> "arr", ops |-> <<[op |-> "elem", t |-> "i32"], [op |-> "elem", t |-> "str"], [op |-> "elem", t |-> "f64"],
                                            [op |-> "elem", t |-> "u8"], [op |-> "elem", t |-> "i32"]>>],
            paths |-> {<<1>>, <<2>>, <<3>>, <<4>>}]
-Shapes == {Shape1, Shape2, Shape4} \cup (IF Arch = "msgpack" THEN {Shape3} ELSE {})
+\* shape 5: object holding nested objects and a trailing scalar (object scope opened by key)
+Shape5 == [doc |-> <<"map", <<<<S(<<111>>), Rec(U(1), S(<<112>>))>>, <<S(<<112>>), Rec(U(2), S(<<113>>))>>, <<S(<<110>>), U(5)>>>>>>,
+           root |-> [k |-> "obj", ops |-> <<[op |-> "obj", ks |-> <<111>>, ops |-> RecOps], [op |-> "obj", ks |-> <<112>>, ops |-> RecOps],
+                                           [op |-> "req", ks |-> <<110>>, t |-> "i32"]>>],
+           paths |-> {<<1>>, <<2>>, <<1, 1>>, <<2, 2>>, <<3>>}]
+Shapes == {Shape1, Shape2, Shape4, Shape5} \cup (IF Arch = "msgpack" THEN {Shape3} ELSE {})
 
 InitSkip == /\ \E sh \in Shapes : doc = sh.doc /\ root = sh.root /\ aux = [clean |-> sh.doc, todo |-> sh.paths, done |-> {}]
             /\ w \in Widths
@@ -139,13 +154,22 @@ NextSkip == /\ Cardinality(aux.done) < MaxOps
 
 -----------------------------------------------------------------------------
 (* Mode "typed" (C07): every corpus value in every legal width into every target, whole and truncated *)
-Targets == {"bool", "i8", "u8", "i16", "u16", "i32", "u32", "i64", "u64", "f32", "f64", "str", "null", "vec_i32"}
+Targets == {"bool", "i8", "u8", "i16", "u16", "i32", "u32", "i64", "u64", "f32", "f64", "str", "null", "vec_i32", "objscope"}
            \cup (IF Arch = "msgpack" THEN {"tp_ns", "vec_u8"} ELSE {})
 
-TypedRoots(T) == { [k |-> "leaf", t |-> T],
+\* pseudo target "objscope": the value is opened as a nested object (one member requested), then a sibling is requested
+TypedRoots(T) == IF T = "objscope" THEN
+                   { [k |-> "obj", ops |-> <<[op |-> "obj", ks |-> Ka, ops |-> <<[op |-> "req", ks |-> Ka, t |-> "i32"]>>], [op |-> "req", ks |-> Kb, t |-> "i32"]>>],
+                     [k |-> "arr", ops |-> <<[op |-> "obj", ops |-> <<[op |-> "req", ks |-> Ka, t |-> "i32"]>>], [op |-> "elem", t |-> "i32"]>>] }
+                 ELSE
+                 { [k |-> "leaf", t |-> T],
                    [k |-> "arr", ops |-> <<[op |-> "elem", t |-> T], [op |-> "elem", t |-> "i32"]>>],
                    [k |-> "obj", ops |-> <<[op |-> "req", ks |-> Ka, t |-> T], [op |-> "req", ks |-> Kb, t |-> "i32"]>>] }
-Wrap(v, r) == IF r.k = "leaf" THEN v ELSE IF r.k = "arr" THEN <<"arr", <<v, U(7)>>>> ELSE <<"map", <<<<S(Ka), v>>, <<S(Kb), U(7)>>>>>>
+                 \cup (IF Arch = "msgpack" /\ T \in {"i32", "str", "u8"}      \* integer keys requested through unsigned / signed key types
+                       THEN { [k |-> "obj", ik |-> TRUE, ops |-> <<[op |-> "req", ku |-> 1, t |-> T], [op |-> "req", ki |-> 2, t |-> "i32"]>>] } ELSE {})
+Wrap(v, r) == IF r.k = "leaf" THEN v ELSE IF r.k = "arr" THEN <<"arr", <<v, U(7)>>>>
+              ELSE IF "ik" \in DOMAIN r THEN <<"map", <<<<U(1), v>>, <<U(2), U(7)>>>>>>
+              ELSE <<"map", <<<<S(Ka), v>>, <<S(Kb), U(7)>>>>>>
 
 TypedCorpus == (IF Arch = "msgpack" THEN ScalarCorpus ELSE JScalars) \cup { <<"arr", <<U(1), U(200), U(-3)>>>>, <<"arr", <<>>>>, <<"arr", <<U(1), S(<<122>>)>>>>, <<"map", <<<<S(Ka), U(1)>>>>>> }
 
@@ -181,9 +205,9 @@ UnchangedOnFailure == Mode = "fields" =>
   LET e == Exec(Padded(doc, 0), root, pol) IN
   \A i \in 1..Len(e.ev) : (e.ev[i][1] = "req" /\ e.ev[i][2] = FALSE) => e.ev[i][3] \in {Prior("i32"), Prior("str")}
 \* C05: with the Skip policies, replacing values by offending ones never raises an error ...
-SkipNeverThrows == (Mode = "skip" /\ pol = SkipPol) => Expected.exc = <<"none">>
+SkipNeverThrows == (Mode = "skip" /\ pol = SkipPol) => Expected.exc \in {<<"none">>, <<"unspecified">>}
 \* ... and the number and kind of events stay those of the clean document (neighbours keep their position)
-SkipKeepsShape == (Mode = "skip" /\ pol = SkipPol) =>
+SkipKeepsShape == (Mode = "skip" /\ pol = SkipPol /\ Expected.exc = <<"none">>) =>
   LET e == Expected c == Exec(aux.clean, root, pol) IN
   e.ev[Len(e.ev)][1] = c.ev[Len(c.ev)][1] /\ (root.k = "arr" => e.ev[Len(e.ev)] = c.ev[Len(c.ev)])
 
@@ -230,12 +254,12 @@ DevExpected ==
 
 Export ==
   IF Mode = "fields" THEN
-     Len(aux) >= 1 => \A p \in Pads :
+     (Len(aux) >= 1 /\ Detectable(Padded(doc, 0), w)) => \A p \in Pads :
         PrintT(<<"GEN", ToJson([doc |-> EncodeDoc(Padded(doc, p), w), meta |-> DocMeta(w), root |-> root, pol |-> pol, exp |-> Exec(DocFor(Padded(doc, p), w), root, pol)])>>)
   ELSE IF Mode = "skip" THEN
-     PrintT(<<"GEN", ToJson([doc |-> EncodeDoc(doc, w), meta |-> DocMeta(w), root |-> root, pol |-> pol, exp |-> Exec(DocFor(doc, w), root, pol), expdev |-> DevExpected])>>)
+     Detectable(doc, w) => PrintT(<<"GEN", ToJson([doc |-> EncodeDoc(doc, w), meta |-> DocMeta(w), root |-> root, pol |-> pol, exp |-> Exec(DocFor(doc, w), root, pol), expdev |-> DevExpected])>>)
   ELSE
-     PrintT(<<"GEN", ToJson([doc |-> EncDoc(doc), meta |-> DocMeta(w), root |-> root, pol |-> pol, cut |-> aux.cut,
+     Detectable(doc, w) => PrintT(<<"GEN", ToJson([doc |-> EncDoc(doc), meta |-> DocMeta(w), root |-> root, pol |-> pol, cut |-> aux.cut,
                              exp |-> IF aux.ci # 0 THEN CorruptExpect ELSE IF aux.cut = 0 THEN Exec(DocFor(doc, w), root, pol) ELSE DamageExpect,
                              expdev |-> DevExpected])>>)
 =============================================================================
